@@ -382,6 +382,7 @@ def process_part(rep, sc):
                        'disagreements': len(bad), 'examples': bad[:6]}, False)
     # a subdirectory / flag change FOLLOWED by another action of the same rule (the later action names the file again from the flags in memory)
     import c09flagseq; rep.coverage['flag_transition_then_action'] = c09flagseq.stage(rep, tools, W, random.Random(rep.seed))
+    import isolation; rep.coverage['isolation'] = isolation.stage(rep, tools, 'C09')     # nothing leaks from one message / maildir / rule into the next (tools/isolation.py)
     return results, sequence_part(rep, tools, rep.tier)
 
 
@@ -472,5 +473,8 @@ def run(rep):
 
 
 def replay(rep, path):
+    import isolation
+    if isolation.replay_file(rep, path):
+        return
     import msgcommon as mc
     mc.generic_replay(rep, path, 'C09', {'flagsp', 'flagss', 'msgflags'}, {}, included=ec.INCLUDED, hname='h_expr')
